@@ -13,7 +13,7 @@ import common
 import reftrees as rt
 from common import coq_str, coq_list, coq_z, enc_str
 
-THEOREMS = ["C17_history", "C17_last_registered", "C17_commit_calls", "C17_commit_exactly", "C17_update_calls", "C17_update_exactly",
+THEOREMS = ["C17_history", "C17_last_registered", "C17_clock_irrelevant", "C17_after_edit", "C17_commit_calls", "C17_commit_exactly", "C17_update_calls", "C17_update_exactly",
             "C17_no_error_calls", "C17_error_stops", "C17_get_backend",
             "C17_commit_paths_lead", "C17_update_path_partial", "C17_update_path_refuted", "C17_example"]
 
@@ -21,12 +21,18 @@ PRELUDE = ("From Coq Require Import List ZArith String.\n"
            "From Basyx Require Import gen.Gen_RefKeys model.Refs model.RefsObs model.Dispatch model.DispatchObs.\n"
            "Open Scope string_scope.")
 
-SCHEMES = ["verifa", "verif2b", "x-v.c+d"]          # registered: backend 0, 1, 2
-GOOD = ["verifa:one", "verifa://h/p?q#f", "verif2b:z", "x-v.c+d:1", "verifa:"]
+LONG = "v" + "erylongscheme.a-b+c0" * 6
+# registered: scheme i -> recording class i.  One letter, letter + digits / + / - / ., upper case, very long.
+SCHEMES = ["verifa", "verif2b", "x-v.c+d", "x", "Q", "a1", "z+9-.", "VerifUP", LONG]
+GOOD = ["verifa:one", "verifa://h/p?q#f", "verif2b:z", "x-v.c+d:1", "verifa:", "x:one", "x:", "Q:/data/sm.json", "a1:b",
+        "z+9-.:r", "VerifUP://h", LONG + ":p"]
 BAD = [("nobackend:zz", "UnknownBackendException"), ("verif:a", "UnknownBackendException"),
-       ("VERIFA:x", "UnknownBackendException"), ("noscheme", "ValueError"), ("1abc:x", "ValueError"),
-       ("ver ifa:x", "ValueError"), (":x", "ValueError"), ("verifa", "ValueError"), ("ver_ifa:x", "ValueError")]
-NCLASSES = 5                      # recording Backend classes 0..4; initially scheme i -> class i
+       ("VERIFA:x", "UnknownBackendException"), ("y:zz", "UnknownBackendException"), ("C:/data/x.json", "UnknownBackendException"),
+       ("X:one", "UnknownBackendException"), ("q:r", "UnknownBackendException"), ("a:", "UnknownBackendException"),
+       (LONG + "x:p", "UnknownBackendException"),
+       ("noscheme", "ValueError"), ("1abc:x", "ValueError"), ("ver ifa:x", "ValueError"), (":x", "ValueError"),
+       ("verifa", "ValueError"), ("ver_ifa:x", "ValueError"), ("+a:x", "ValueError"), ("x", "ValueError")]
+NCLASSES = len(SCHEMES) + 2       # recording Backend classes; initially scheme i -> class i
 LOG = []
 _classes = []
 
@@ -57,45 +63,89 @@ def scheme_py(src):
     return m.group(1) if m else None
 
 
+class FakeClock:
+    """time.time / monotonic / perf_counter (and their _ns forms) as seen by the SDK during a commit()/update() call"""
+    NAMES = ["time", "monotonic", "perf_counter", "time_ns", "monotonic_ns", "perf_counter_ns"]
+
+    def __init__(self):
+        self.t = 1000.0
+        self.saved = None
+
+    def __enter__(self):
+        import time
+        self.saved = {n: getattr(time, n) for n in self.NAMES}
+        for n in self.NAMES:
+            setattr(time, n, (lambda: int(self.t * 1e9)) if n.endswith("_ns") else (lambda: self.t))
+        return self
+
+    def __exit__(self, *a):
+        import time
+        for n, f in self.saved.items():
+            setattr(time, n, f)
+
+
 def run_ops(tree, ops):
-    """Returns (observations, oracle failures)."""
+    """ops: ("commit", p) | ("update", p, recursive) | ("register", scheme, class) | ("clock", step) |
+            ("edit", mutation descriptor of c07.apply_mutation with si = ri = 0).
+    Positions refer to the tree as it is at that point of the sequence.
+    Returns (observations of the commit/update calls, oracle failures, segments); a segment =
+    (tree at that time, registrations so far, ops of the segment, their observations): an edit starts a new one."""
+    import copy
+    import c07
     from basyx.aas import model
     from basyx.aas.backend import backends
     backends_ready()
-    reg = {}
-    root = rt.build(tree, reg, ())
-    pos_of = {k: tuple(v[0]) for k, v in reg.items()}
-    allnodes = rt.walk(tree)
-    by_pos = {tuple(p): n for p, n, _ in allnodes}
+    tree = copy.deepcopy(rt.clean(tree))
+    root = rt.build(tree, attach=True)
+    state = {}
+
+    def reindex():
+        state["pos_of"] = {id(n["_o"]): tuple(p) for p, n, _ in rt.walk(tree)}
+        state["by_pos"] = {tuple(p): n for p, n, _ in rt.walk(tree)}
+    reindex()
     obs, fails = [], []
+    segments = []
+    regs_so_far = []
+    seg = {"tree": rt.clean(tree), "regs": [], "ops": [], "obs": []}
+    clock = FakeClock()
     current = {s: i for i, s in enumerate(SCHEMES)}      # the oracle's own record: scheme -> class registered LAST
     # warm-up, not observed: every source URL of the tree is resolved once under the initial registry, so that a
     # case (and its shrunk replay in a fresh process) does not depend on what earlier cases happened to resolve
-    for _, o in reg.values():
-        if o.source != "":
+    for _, n, _ in rt.walk(tree):
+        if n["_o"].source != "":
             try:
-                backends.get_backend(o.source)
+                backends.get_backend(n["_o"].source)
             except Exception:
                 pass
     for op in ops:
         if op[0] == "register":
             backends.register_backend(op[1], _classes[op[2]])
             current[op[1]] = op[2]
+            regs_so_far.append(op)
+            seg["ops"].append(op)
             continue
+        if op[0] == "clock":
+            clock.t += op[1]
+            seg["ops"].append(op)
+            continue
+        if op[0] == "edit":
+            c07.apply_mutation([[tree]], op[1], True)
+            reindex()
+            segments.append(seg)
+            seg = {"tree": rt.clean(tree), "regs": list(regs_so_far), "ops": [], "obs": []}
+            continue
+        pos_of, by_pos = state["pos_of"], state["by_pos"]
         kind, p = op[0], tuple(op[1])
-        x = root
-        t = tree
-        for i in p:
-            t = t["ch"][i]
-            x = [e for s in x.namespace_element_sets if "id_short" in s.get_attribute_name_list() for e in s][i] \
-                if not isinstance(x, model.SubmodelElementList) else x.value[i]
+        x = by_pos[p]["_o"]
+        seg["ops"].append(op)
         del LOG[:]
         err = None
         try:
-            if kind == "commit":
-                x.commit()
-            else:
-                x.update(recursive=op[2])
+            with clock:
+                if kind == "commit":
+                    x.commit()
+                else:
+                    x.update(recursive=op[2])
         except Exception as e:
             err = e
         calls = list(LOG)
@@ -109,6 +159,7 @@ def run_ops(tree, ops):
         ecode = 0 if err is None else 3 if type(err) is ValueError else 7 if isinstance(err, backends.UnknownBackendException) else 98
         rows.append([ecode])
         obs.append(rows)
+        seg["obs"].append(rows)
         # ------------------------------------------------------------ oracle
         anc = [p[:k] for k in range(len(p))]
         desc = [q for q in by_pos if len(q) > len(p) and q[:len(p)] == p]
@@ -179,7 +230,8 @@ def run_ops(tree, ops):
                 else:
                     sig = f"C17:{tag}:relative_path-does-not-lead-to-object"
                 fails.append((sig, f"relative_path {rel} from store {so!r} does not lead to {o!r}"))
-    return obs, fails
+    segments.append(seg)
+    return obs, fails, segments
 
 
 # ------------------------------------------------------------------ generation
@@ -204,7 +256,98 @@ def place_sources(rng, tree, mode, late=None):
 def gen_tree(rng, depth, stats):
     key = rng.choice([None, "sm", "a"])
     names = rng.sample(rt.ID_SHORTS, rng.randint(1, 3))
-    return rt.node("Submodel", key, [rt.gen_elem(rng, depth - 1, nm, stats=stats) for nm in names], id_="urn:a")
+    ch = [rt.gen_elem(rng, depth - 1, nm, stats=stats) for nm in names]
+    if rng.random() < 0.4:
+        # a list directly below the submodel (items: leaves or containers), so that list items carry / inherit sources
+        ch.insert(rng.randint(0, len(ch)), rt.gen_elem(rng, max(2, depth - 1), "lst", force="SubmodelElementList", stats=stats))
+    return rt.node("Submodel", key, ch, id_="urn:a")
+
+
+CLOCK_STEPS = [0, 0, 1, -1, 5, -5, 3600, -3600, -100000, 86400]
+
+
+def gen_edit(rng, tree):
+    """one edit of the abstract tree (applied in place), preferably at the FRONT of a list; returns the descriptor"""
+    import c07
+    lists = [(p, n) for p, n, _ in rt.walk(tree) if n["c"] == "SubmodelElementList"]
+    conts = [(p, n) for p, n, _ in rt.walk(tree) if n["c"] in ("Submodel", "SubmodelElementCollection", "Entity")]
+
+    def new_item(n, key=None, elem=None):
+        it = rt.gen_elem(rng, 1, key, force=elem)
+        for _, x, _ in rt.walk(it):
+            x["src"] = rng.choice(GOOD) if rng.random() < .4 else ""
+        return it
+    m = None
+    if lists and rng.random() < .85:
+        p, n = rng.choice(lists)
+        ln = len(n["ch"])
+        op = rng.choice(["insert0", "insert0", "insert", "append"] + (["del0", "del0", "pop0", "setitem", "reverse", "delslice"] if ln else []))
+        if op == "insert0":
+            m = ["list_insert", 0, 0, p, 0, new_item(n, elem=n["elem"])]
+        elif op == "insert":
+            m = ["list_insert", 0, 0, p, rng.randint(0, ln), new_item(n, elem=n["elem"])]
+        elif op == "append":
+            m = ["list_append", 0, 0, p, new_item(n, elem=n["elem"])]
+        elif op == "del0":
+            m = ["list_del", 0, 0, p, 0, 1]
+        elif op == "pop0":
+            m = ["list_pop", 0, 0, p, 0]
+        elif op == "delslice":
+            a = rng.randrange(ln)
+            m = ["list_del", 0, 0, p, a, rng.randint(a + 1, ln)]
+        elif op == "setitem":
+            m = ["list_setitem", 0, 0, p, rng.randrange(ln), new_item(n, elem=n["elem"])]
+        else:
+            m = ["list_reorder", 0, 0, p, list(reversed(range(ln)))]
+    elif conts:
+        p, n = rng.choice(conts)
+        free = [k for k in rt.ID_SHORTS if k not in [x["k"] for x in n["ch"]]]
+        if n["ch"] and (not free or rng.random() < .5):
+            m = ["ns_remove", 0, 0, p, rng.randrange(len(n["ch"]))]
+        elif free:
+            m = ["ns_add", 0, 0, p, new_item(n, key=rng.choice(free))]
+    if m is None:
+        return None
+    c07.apply_mutation([[tree]], m)
+    return m
+
+
+def gen_history(rng, tree, count, late):
+    """commit/update of every node (sampled), re-registrations, clock steps between repeated calls on the same
+    object, and edits of the tree followed by calls on the nodes around the edit"""
+    import copy
+    cur = copy.deepcopy(tree)
+    ops = all_ops(cur)
+    if len(ops) > 36:
+        ops = rng.sample(ops, 36)
+    ops = with_registrations(rng, ops, count, late)
+    if rng.random() < 0.6:
+        targets = [p for p, _, _ in rt.walk(cur)]
+        for _ in range(rng.randint(1, 3)):
+            p = rng.choice(targets)
+            rec = rng.random() < .5
+            for _ in range(rng.randint(1, 3)):
+                step = rng.choice(CLOCK_STEPS)
+                ops += [("update", p, rec), ("clock", step), ("update", p, rec)]
+                count(f"clock-step={'0' if step == 0 else 'forward' if step > 0 else 'backward'}")
+                if rng.random() < .4:
+                    ops.append(("commit", p))
+    if rng.random() < 0.6:
+        for _ in range(rng.randint(1, 3)):
+            m = gen_edit(rng, cur)
+            if m is None:
+                break
+            count("edit=" + m[0])
+            ops.append(("edit", m))
+            q = list(m[3])
+            near = [p for p, _, _ in rt.walk(cur) if p[:len(q)] == q]
+            rng.shuffle(near)
+            for p in near[:6]:
+                ops += rng.sample([("commit", p), ("update", p, False), ("update", p, True)], rng.randint(1, 2))
+            if rng.random() < .5:
+                ops.append(("clock", rng.choice(CLOCK_STEPS)))
+                ops += [("update", p, False) for p in near[:2]]
+    return ops
 
 
 def all_ops(tree):
@@ -234,7 +377,10 @@ def with_registrations(rng, ops, count, late):
 def shrink_ops(tree, ops, sig):
     """shortest failing prefix, then drop single operations while the same signature still fails"""
     def failing(o):
-        return any(s == sig for s, _ in run_ops(tree, o)[1])
+        try:
+            return any(s == sig for s, _ in run_ops(tree, o)[1])
+        except Exception:
+            return False          # dropping an edit may leave later positions dangling
     cur = list(ops)
     for k in range(1, len(ops) + 1):
         if failing(ops[:k]):
@@ -252,6 +398,8 @@ def shrink_ops(tree, ops, sig):
 
 
 def coq_op(o):
+    if o[0] == "clock":
+        return f"OClock {coq_z(o[1])}"
     if o[0] == "register":
         return f"ORegister {coq_str(o[1])} {o[2]}%nat"
     if o[0] == "commit":
@@ -260,6 +408,11 @@ def coq_op(o):
 
 
 REG = coq_list(f"({coq_str(s)}, {i}%nat)" for i, s in enumerate(SCHEMES))
+
+
+def coq_segment(seg, cls_index):
+    """the registrations made before the segment are replayed in front of its operations"""
+    return coq_case(seg["tree"], list(seg["regs"]) + list(seg["ops"]), seg["obs"], cls_index)
 
 
 def coq_case(tree, ops, obs, cls_index):
@@ -319,22 +472,18 @@ def run(chk):
         # time must not be one that another case expects to be unknown
         late = f"late{ci}.{chk.seed}"
         place_sources(rng, t, mode, late)
-        ops = all_ops(t)
-        if len(ops) > 45:
-            ops = rng.sample(ops, 45)
-        ops = with_registrations(rng, ops, chk.count, late)
-        cases.append((t, ops))
+        cases.append((t, gen_history(rng, t, chk.count, late)))
         chk.count(f"sources={mode}")
-    terms = []
-    for tree, ops in cases:
-        obs, fails = run_ops(tree, ops)
+    terms, origin = [], []
+    for ci, (tree, ops) in enumerate(cases):
+        obs, fails, segments = run_ops(tree, ops)
         nn = rt.size(tree)
         nsrc = sum(1 for _, n, _ in rt.walk(tree) if n["src"])
         chk.seen((tree, ops), nontrivial=nn >= 3 and nsrc >= 1)
         chk.count(f"nodes={'1-5' if nn <= 5 else '6-15' if nn <= 15 else '>15'}")
         chk.count(f"sourced_nodes={'0' if nsrc == 0 else '1-2' if nsrc <= 2 else '3-6' if nsrc <= 6 else '>6'}")
         chk.count(f"height={rt.height(tree)}")
-        for o, ob in zip([o for o in ops if o[0] != "register"], obs):
+        for o, ob in zip([o for o in ops if o[0] in ("commit", "update")], obs):
             chk.count(f"op={o[0]}" + ("" if o[0] == "commit" else f"(recursive={o[2]})"))
             chk.count(f"calls={'0' if len(ob) == 1 else '1' if len(ob) == 2 else '2-3' if len(ob) <= 4 else '>3'}")
             chk.count("result=" + {0: "ok", 3: "ValueError", 7: "UnknownBackendException"}.get(ob[-1][0], "other"))
@@ -345,7 +494,10 @@ def run(chk):
             seen.add(sig)
             small = shrink_ops(tree, ops, sig)
             chk.fail(sig, msg, {"tree": tree, "ops": small, "how": "tools/c17.py run_ops(tree, ops)"})
-        terms.append(coq_case(tree, ops, obs, cls_index))
+        for k, seg in enumerate(segments):
+            if seg["obs"]:
+                terms.append(coq_segment(seg, cls_index))
+                origin.append((ci, k))
         if len(chk.samples) < 3 and nsrc >= 2 and nn >= 5:
             chk.samples.append({"tree": tree, "first_ops": ops[:3], "sdk_observations": obs[:3]})
     for c, n in stats.items():
@@ -369,19 +521,22 @@ def run(chk):
     for e in errs + errs2:
         chk.tie_broken("correspondence-run", e)
     if bad:
-        tree, ops = cases[bad[0]]
-        obs, _ = run_ops(tree, ops)
-        # prefixes ending in a commit/update, each with the observations of that prefix
-        ends = [k + 1 for k, o in enumerate(ops) if o[0] != "register"]
-        b, e = common.run_mismatch_shards("C17s", PRELUDE, [coq_case(tree, ops[:k], obs[:j + 1], cls_index)
-                                                            for j, k in enumerate(ends)], "check_case", shard=50)
-        first = (ops[:ends[b[0]]], obs[b[0]]) if b else None
+        ci, k = origin[bad[0]]
+        tree, ops = cases[ci]
+        seg = run_ops(tree, ops)[2][k]
+        sops = list(seg["regs"]) + list(seg["ops"])
+        # prefixes of the segment ending in a commit/update, each with the observations of that prefix
+        ends = [i + 1 for i, o in enumerate(sops) if o[0] in ("commit", "update")]
+        b, e = common.run_mismatch_shards("C17s", PRELUDE, [coq_case(seg["tree"], sops[:i], seg["obs"][:j + 1], cls_index)
+                                                            for j, i in enumerate(ends)], "check_case", shard=50)
+        first = (sops[:ends[b[0]]], seg["obs"][b[0]]) if b else None
         model = None
         if first:
-            tt = rt.coq_tree(tree, cls_index, True)
+            tt = rt.coq_tree(seg["tree"], cls_index, True)
             oo = coq_list(coq_op(o) for o in first[0])
             model = common.coq_eval("C17", PRELUDE, f"(map enc_outcome (exec {REG} {tt} {oo}), "
                                                     f"map enc_outcome (spec_exec {REG} [] {tt} {oo}), wf_treeb {tt})")
+        tree = seg["tree"]
         chk.tie_broken("correspondence", {"n_disagreements": len(bad), "tree": tree, "ops_up_to_first_disagreement": first and first[0],
                                           "sdk_observation_of_last_op": first and first[1], "model_and_spec_traces": model})
     if bad2:
@@ -408,14 +563,19 @@ def finish(chk):
                            "update(recursive=False) (sampled to 45 ops on big trees); in ~65% of the random cases 1-3 register_backend calls "
                            "(same scheme -> another of 5 recording classes, or a scheme registered for the first time) are "
                            "interleaved and earlier operations repeated after them, so the same source URLs are resolved again; "
-                           "the initial registry is re-established at the start of every case; non-trivial = >= 3 nodes and >= 1 source")
+                           "the initial registry is re-established at the start of every case; in ~60% repeated update()/commit() of "
+                           "one object with steps of a controlled clock in between (time.time/monotonic/perf_counter patched "
+                           "during the calls: 0, forward, backward); in ~60% 1-3 edits of the live tree (mostly at the front "
+                           "of a SubmodelElementList: insert(0), del [0], pop(0), setitem, reverse; add/remove_referable) "
+                           "followed by calls on the nodes around the edit, the model evaluated on the tree as it is then; "
+                           "schemes: one letter, letter+digits/+/-/., upper case, 127 characters; non-trivial = >= 3 nodes and >= 1 source")
 
 
 def replay(path):
     r = json.load(open(path))
     rp = r.get("replay") or {}
     if "ops" in rp:
-        obs, fails = run_ops(rp["tree"], [tuple(o) for o in rp["ops"]])
+        obs, fails, _ = run_ops(rp["tree"], [tuple(o) for o in rp["ops"]])
         print("observations:", obs)
         print("oracle:", fails)
         return 1 if fails else 0
